@@ -198,6 +198,7 @@ func init() {
 	registerFamily("batch", []string{"C01", "C03", "C05", "C07", "C08"}, func(e *env) {
 		r := vt.Rand()
 		e.common(r)
+		e.useGen = r.Intn(3) == 0 // some items are then submitted without an ID
 		e.mkWorker()
 		q := e.bind(pick(r, qFifo, qPrio))
 		var jn joiner
@@ -214,7 +215,7 @@ func init() {
 			}
 			var specs []itemSpec
 			for i := 0; i < size; i++ {
-				specs = append(specs, itemSpec{prio: r.Intn(3), outcome: randOutcome(r)})
+				specs = append(specs, itemSpec{prio: r.Intn(3), outcome: randOutcome(r), noID: e.useGen && r.Intn(2) == 0})
 			}
 			jn.goClient("batcher", func() {
 				b := e.addAll(q, specs)
